@@ -32,6 +32,12 @@ MAP = [
     ("OP_PICK and OP_ROLL fail on a negative operand", "C07", "negative PICK/ROLL operand succeeded"),
     ("OP_CHECKSEQUENCEVERIFY is a NOP when the operand has the disable flag", "C07", "CSV operand with bit 31 set was rejected"),
     ("script evaluation ends with CastToBool", "C07", "final stack top 00 / 80 / 0000 counted as true"),
+    ("NetworkEnvelope.parse rejects a payload shorter", "C19", "envelope with fewer payload bytes than declared was accepted"),
+    ("PongMessage.parse is a classmethod", "C19", "PongMessage.parse raised TypeError"),
+    ("CompactFilter keeps duplicate range values", "C18", "filter with two equal range values: wrong N/F, inserted elements absent, lossy re-serialise"),
+    ("check_pow accepts hash == target", "C17", "check_pow rejected hash == target and accepted sign-bit / zero targets"),
+    ("bits_to_target uses integer arithmetic", "C17", "bits_to_target returned floats for exponent < 3 and read the sign bit as magnitude"),
+    ("target_to_bits always emits four bytes", "C17", "target_to_bits gave 2-3 bytes for targets below 2**16; IndexError for 0"),
     ("PSBTIn.validate compares a p2sh-p2wpkh key", "C10", "p2sh-p2wpkh input with derivation could not be validated / re-parsed"),
     ("PSBTOut.validate accepts the key derivation of a p2sh-p2wpkh output", "C10", "p2sh-p2wpkh output with derivation could not be validated / re-parsed"),
     ("PSBT.serialize embeds the unsigned transaction in non-witness format", "C10", "Tx(segwit=True) was embedded in witness format; re-parse failed"),
